@@ -68,6 +68,9 @@ def q1(e: Engine, rep: Report):
     fg = e.build(fctx)
     taken = {canon(n.ast.func.value, n.frame) for n in fg.nodes
              if n.kind == 'call' and e.call_name(n) == 'acquire'}
+    taken |= {canon(n.ast.context_expr, n.frame)
+              for n in fg.of_kind('with_enter')
+              if 'lock' in canon(n.ast.context_expr, n.frame)}
     rep.functions.add(fctx.func.qname)
     ctx = e.method_ctx(QUEUE, '_run')
     g = e.build(ctx, inline=e.inline_same_self(
@@ -86,7 +89,11 @@ def q1(e: Engine, rep: Report):
         rel = [n for n in g.nodes if n.kind == 'call' and
                e.call_name(n) == 'release' and
                canon(n.ast.func.value, n.frame) == lock]
-        if not acq:
+        def with_held(n):
+            return any(sc.kind == 'with' and
+                       canon(sc.ast.context_expr, sc.frame) == lock
+                       for sc in n.scopes)
+        if not acq and not any(with_held(n) for n in g.nodes):
             rep.ok('Q1', where, 'scheduler does not hold ' + lock,
                    reason='no acquire in the loop')
             continue
@@ -109,9 +116,9 @@ def q1(e: Engine, rep: Report):
             if not blocking:
                 continue
             rep.evaluations += 1
-            held = True in (IN.get(n.id) or ())
+            held = True in (IN.get(n.id) or ()) or with_held(n)
             w = None
-            if held:
+            if held and not with_held(n):
                 pth = dataflow.typestate_witness(
                     g, False, step, lambda x, st: x is n and st)
                 w = dataflow.render_path(pth, 16) if pth else None
@@ -229,6 +236,16 @@ def q3(e: Engine, rep: Report):
                       'through _add_queued instead of exactly once'
                       % (src, sorted(counts)), loc=lp.loc(),
                       reason='exactly one _add_queued per entry')
+    from . import c03
+    sub = Report(rep.prop, rep.tier, rep.repo)
+    c03.r32(e, sub)
+    for o in sub.obls:
+        if 'neither queued nor active' in o.text:
+            rep.add('Q3', o.where, o.text, o.status,
+                    o.what + ' (and the later re-queue with the due time '
+                    'the backoff chose is then rejected: attempted early / '
+                    'twice)' if o.what else '', o.loc, o.witness,
+                    o.nontrivial, o.reason)
     ctx = e.method_ctx(QUEUE, '_add_queued')
     g = e.build(ctx, raises=lambda b, n, r: set())
     where = ctx.func.qname
